@@ -1,5 +1,6 @@
 import CnvVerif.Props.C01
 import CnvVerif.Props.C02
+import CnvVerif.Props.C03
 import CnvVerif.Props.C06
 import CnvVerif.Props.C07
 import CnvVerif.Props.C13
